@@ -515,6 +515,8 @@ class Spectrum:
                              'wavelength, consider using Spectrum.integrate() instead.')
 
         if waveunit != self.waveunit:
+            # bin a copy expressed in the requested unit; self keeps its units
+            self = self.copy()
             self.to(waveunit)
 
         if interp_method == 'trapz':
@@ -529,7 +531,8 @@ class Spectrum:
                 raise ValueError('Unknown ends ', ends)
 
             # sample
-            f = self.sample(x, method=sample_method, fill_value=fill_value)
+            f = self.sample(x, method=sample_method, fill_value=fill_value,
+                            waveunit=waveunit)
 
             # apply the chained trapezoidal rule
             bins = np.array([])
@@ -554,7 +557,8 @@ class Spectrum:
                 raise ValueError('Unknown ends ', ends)
 
             # sample
-            f = self.sample(x, method=sample_method, fill_value=fill_value)
+            f = self.sample(x, method=sample_method, fill_value=fill_value,
+                            waveunit=waveunit)
 
             # apply the chained simpson's rule
             bins = np.array([])
